@@ -703,58 +703,61 @@ theorem adoptId_getElem (i : Nat) (l : List Rule) (n : Nat) (x : Rule) (h : l[n]
   rw [List.getElem?_map, h]
   simp [hid]
 
-/-- an accepted insert that made the list one longer returns the index at which the new rule stands -/
+/-- an accepted insert returns the index at which the new rule stands (except for the @charset rule that is merged
+into the existing one: index 0 is that rule) -/
 theorem insertCore_index (st : St) (dict : Dict) (r : Rule) (idx : Nat) (inOrder clean track : Bool) (n : Nat)
-    (hidx : idx ≤ st.rules.length)
-    (hok : (insertCore st dict r idx inOrder clean track).2 = .ok n)
-    (hlen : (insertCore st dict r idx inOrder clean track).1.rules.length = st.rules.length + 1) :
+    (hidx : idx ≤ st.rules.length) (hfresh : ∀ x ∈ st.rules, x.id ≠ r.id)
+    (hnm : place (kindsOf st.rules) r.kind idx inOrder ≠ .mergeCharset)
+    (hok : (insertCore st dict r idx inOrder clean track).2 = .ok n) :
     (insertCore st dict r idx inOrder clean track).1.rules[n]? = some r.adopt := by
-  unfold insertCore at hok hlen ⊢
+  unfold insertCore at hok ⊢
   split
   · rename_i e he
     simp only [he] at hok
     unfold logError at hok; split at hok <;> cases hok
-  · rename_i he
-    simp only [he] at hlen
-    exfalso
-    have : (setEnc0 r.enc st.rules).length = st.rules.length + 1 := hlen
-    rw [setEnc0_length] at this; omega
+  · rename_i he; exact absurd he hnm
   · rename_i i hp
     have hi : i ≤ st.rules.length := by
       have := place_at_le hp (by simpa using hidx)
       simpa using this
-    simp only [hp] at hok hlen
+    simp only [hp] at hok
     split
     · rename_i hns
-      simp only [hns, if_true] at hok hlen
+      simp only [hns, if_true] at hok
       split
       · rename_i hdup
         simp only [hdup, if_true] at hok
         cases hok
       · rename_i hdup
-        simp only [hdup] at hok hlen
+        simp only [hdup] at hok
         split
         · rename_i hcl
-          simp only [hcl, if_true] at hok hlen
-          dsimp only at hok hlen ⊢
+          simp only [hcl, if_true] at hok
+          dsimp only at hok ⊢
           have hsub := cleanNamespaces_sublist (pyInsert st.rules i r)
           split
           · rename_i e he
             simp only [he] at hok; cases hok
           · rename_i he
-            simp only [he] at hok hlen
+            simp only [he] at hok
             split
             · rename_i hany
-              simp only [hany, if_true] at hok hlen
+              simp only [hany, if_true] at hok
               injection hok with hok; subst hok
-              have hl2 : (adoptId r.id (cleanNamespaces (pyInsert st.rules i r)).1).length = st.rules.length + 1 := hlen
-              unfold adoptId at hl2
-              rw [List.length_map] at hl2
-              have heq : (cleanNamespaces (pyInsert st.rules i r)).1 = pyInsert st.rules i r :=
-                hsub.eq_of_length (by rw [hl2, pyInsert_length])
-              show (adoptId r.id (cleanNamespaces (pyInsert st.rules i r)).1)[i]? = some r.adopt
-              rw [heq]
-              exact adoptId_getElem _ _ _ _ (pyInsert_getElem _ _ _ hi) rfl
+              show (adoptId r.id (cleanNamespaces (pyInsert st.rules i r)).1)[
+                List.findIdx (fun x => decide (x.id = r.id)) (cleanNamespaces (pyInsert st.rules i r)).1]? = some r.adopt
+              have hex : ∃ x ∈ (cleanNamespaces (pyInsert st.rules i r)).1, decide (x.id = r.id) = true := by
+                simpa [List.any_eq_true] using hany
+              have hlt := List.findIdx_lt_length_of_exists hex
+              have hp' := List.findIdx_getElem (w := hlt)
+              have hmem := List.getElem_mem hlt
+              have hy : (cleanNamespaces (pyInsert st.rules i r)).1[
+                  List.findIdx (fun x => decide (x.id = r.id)) (cleanNamespaces (pyInsert st.rules i r)).1] = r := by
+                rcases mem_pyInsert (hsub.subset hmem) with h | h
+                · exact h
+                · exact absurd (by simpa using hp') (hfresh _ h)
+              apply adoptId_getElem _ _ _ r _ rfl
+              rw [List.getElem?_eq_getElem hlt, hy]
             · rename_i hany
               simp only [hany] at hok
               cases hok
@@ -778,13 +781,15 @@ theorem idxOf_le {index : Option Int} {len idx : Nat} (h : idxOf index len = som
       simp only [Bool.or_eq_true, decide_eq_true_eq, not_or, Int.not_lt] at hi
       omega
 
+/-- `insertRule` in a state whose ids are below `next` -/
 theorem insertRule_index (st : St) (s : Spec) (index : Option Int) (inOrder viaStr track : Bool) (n : Nat)
-    (hok : (insertRule st s index inOrder viaStr track).2 = .ok n)
-    (hlen : (insertRule st s index inOrder viaStr track).1.rules.length = st.rules.length + 1) :
+    (hids : ∀ x ∈ st.rules, x.id < st.next)
+    (hnm : ¬ (inOrder = true ∧ s.kind = .charset ∧ firstIs [.charset] (kindsOf st.rules) = true))
+    (hok : (insertRule st s index inOrder viaStr track).2 = .ok n) :
     ∃ x, (insertRule st s index inOrder viaStr track).1.rules[n]? = some x ∧
       x.kind = s.kind ∧ x.pss = true ∧ x.id = st.next := by
-  unfold insertRule at hok hlen ⊢
-  dsimp only at hok hlen ⊢
+  unfold insertRule at hok ⊢
+  dsimp only at hok ⊢
   cases hi : idxOf index st.rules.length with
   | none =>
     simp only [hi] at hok
@@ -792,7 +797,7 @@ theorem insertRule_index (st : St) (s : Spec) (index : Option Int) (inOrder viaS
   | some idx =>
     cases viaStr with
     | true =>
-      simp only [hi, if_true] at hok hlen ⊢
+      simp only [hi, if_true] at hok ⊢
       cases hc : parseCand st.raising (nsDict st.rules) st.next s with
       | error e => simp only [hc] at hok; cases hok
       | ok oc =>
@@ -801,21 +806,37 @@ theorem insertRule_index (st : St) (s : Spec) (index : Option Int) (inOrder viaS
           simp only [hc] at hok
           unfold logError at hok; split at hok <;> cases hok
         | some c =>
-          simp only [hc] at hok hlen ⊢
+          simp only [hc] at hok ⊢
+          have hcid := (parseCand_ok hc).2.2.1
           have := insertCore_index { rules := st.rules, gone := st.gone, next := c.2, raising := st.raising }
-            (nsDict st.rules) c.1 idx inOrder true false n (idxOf_le hi) hok hlen
-          exact ⟨c.1.adopt, this, by rw [adopt_kind, parseCand_kind hc], rfl, (parseCand_ok hc).2.2.1⟩
+            (nsDict st.rules) c.1 idx inOrder true false n (idxOf_le hi)
+            (fun x hx => by rw [hcid]; exact Nat.ne_of_lt (hids x hx))
+            (by
+              intro hm
+              have := (mergesCharset_iff { rules := st.rules, gone := st.gone, next := c.2, raising := st.raising }
+                c.1.kind idx inOrder).mp (by simp [mergesCharset, hm])
+              rw [parseCand_kind hc] at this
+              exact hnm ⟨this.2.1, this.1, this.2.2⟩) hok
+          exact ⟨c.1.adopt, this, by rw [adopt_kind, parseCand_kind hc], rfl, hcid⟩
     | false =>
-      simp only [hi, Bool.false_eq_true, if_false] at hok hlen ⊢
+      simp only [hi, Bool.false_eq_true, if_false] at hok ⊢
       cases hwf : s.wellformed with
       | false =>
         simp only [hwf, Bool.not_false, if_true] at hok
         unfold logError at hok; split at hok <;> cases hok
       | true =>
-        simp only [hwf, Bool.not_true, Bool.false_eq_true, if_false] at hok hlen ⊢
+        simp only [hwf, Bool.not_true, Bool.false_eq_true, if_false] at hok ⊢
         have := insertCore_index
           { rules := st.rules, gone := st.gone, next := (Spec.inst none st.next s).2, raising := st.raising }
-          (nsDict st.rules) (Spec.inst none st.next s).1 idx inOrder true track n (idxOf_le hi) hok hlen
+          (nsDict st.rules) (Spec.inst none st.next s).1 idx inOrder true track n (idxOf_le hi)
+          (fun x hx => by rw [inst_id]; exact Nat.ne_of_lt (hids x hx))
+          (by
+            intro hm
+            have := (mergesCharset_iff
+              { rules := st.rules, gone := st.gone, next := (Spec.inst none st.next s).2, raising := st.raising }
+              (Spec.inst none st.next s).1.kind idx inOrder).mp (by simp [mergesCharset, hm])
+            rw [inst_kind] at this
+            exact hnm ⟨this.2.1, this.1, this.2.2⟩) hok
         exact ⟨(Spec.inst none st.next s).1.adopt, this, by rw [adopt_kind, inst_kind], rfl, inst_id none st.next s⟩
 
 end CssVerif.SheetEdit
